@@ -182,6 +182,62 @@ def strat_large(draw):
     return {'name': name, 'p': p}
 
 
+def run_dimacs(case):
+    """a CNF read from a DIMACS file by the `dimacs` sub-command of both tools"""
+    import os
+    from cnfgen.clitools.cmdline import CLIError
+    n, clauses = case['n'], case['clauses']
+    text = "".join(case.get('head', [])) + "p cnf {} {}\n".format(n, len(clauses)) + "".join(" ".join(map(str, c + [0])) + "\n" for c in clauses)
+    with catalog.Ctx() as ctx:
+        path = ctx.path('cnf')
+        with open(path, 'w') as fh:
+            fh.write(text)
+        res = []
+        for tool in ('cnfgen', 'pbgen'):
+            try:
+                res.append(cli.build(tool, ['-q', 'dimacs', path] if case.get('via', 'file') == 'file' else ['-q', 'dimacs'],
+                                     stdin_text=None if case.get('via', 'file') == 'file' else text))
+            except CLIError as e:
+                res.append(e)
+    what = "cnfgen/pbgen dimacs on {!r}".format(text[:200])
+    if isinstance(res[0], CLIError) or isinstance(res[1], CLIError):
+        raise Violation("{}: a tool refuses a legal DIMACS file: {}".format(what, [str(r)[:80] for r in res]))
+    n1 = res[0].number_of_variables()
+    if n1 != n or res[1].number_of_variables() != n:
+        raise Violation("{}: {} / {} variables, the file declares {}".format(what, n1, res[1].number_of_variables(), n))
+    if n > 22:
+        return Outcome(labels=['too-large'], nontrivial=False)
+    t1, t2 = tt.formula_tt(res[0]), tt.formula_tt(res[1])
+    want = tt.cnf_tt(n, clauses)
+    if t1 != want or t2 != want:
+        bad = 'CNF' if t1 != want else 'OPB'
+        a = tt.first_row((t1 if t1 != want else t2) ^ want)
+        raise Violation("{}: assignment {} is judged differently by the {} rendering and by the clauses of the file".format(what, tt.row_assignment(n, a), bad))
+    labels = ['dimacs', case.get('via', 'file')]
+    if any(-l in c for c in clauses for l in c):
+        labels.append('opposite-literals')
+    if any(len(set(c)) < len(c) for c in clauses):
+        labels.append('repeated-literals')
+    if any(not c for c in clauses):
+        labels.append('empty-clause')
+    return Outcome(labels=labels, nontrivial=len(clauses) >= 1 and n >= 1)
+
+
+@st.composite
+def strat_dimacs(draw):
+    n = draw(st.integers(1, 6))
+    lit = st.integers(1, n).flatmap(lambda v: st.sampled_from([v, -v]))
+    clauses = draw(st.lists(st.lists(lit, max_size=5), max_size=7))
+    return {'n': n + draw(st.integers(0, 2)), 'clauses': clauses, 'via': draw(st.sampled_from(['file', 'file', 'stdin'])),
+            'head': draw(st.sampled_from([[], ['c a comment\n']]))}
+
+
+def enum_dimacs(tier):
+    for clauses in ([[1, -1]], [[-1, 3, 1]], [[2, 2, -2], [1]], [[1, 1]], [[]], [[1, -1], [-1, 1, 2], [3]], [[-2, 2]]):
+        for via in ('file', 'stdin'):
+            yield {'n': 3, 'clauses': clauses, 'via': via, 'head': []}
+
+
 NAMES = catalog.family_names()
 
 SUBCHECKS = [
@@ -194,6 +250,9 @@ SUBCHECKS = [
     SubCheck('lib', run_lib, strategy=strat_lib, quick=600, thorough=30000,
              rule="every deterministic family of the catalogue through the library with formula_class=CNF and =OPB; same oracle",
              required_labels=['native-cardinality', 'native-equality']),
+    SubCheck('dimacs', run_dimacs, strategy=strat_dimacs, enumerate_cases=enum_dimacs, quick=250, thorough=10000,
+             rule="the 'dimacs' sub-command of both tools on harness-written files and on stdin: CNFs with 1..8 variables, 0..7 clauses of width 0..5 with repeated and opposite literals (tautological clauses), empty clauses, unused variables; oracle: both renderings have the declared variable count and exactly the models of the clauses in the file (complete truth tables); non-trivial: >=1 clause",
+             required_labels=['opposite-literals', 'repeated-literals', 'empty-clause', 'stdin', 'file']),
     SubCheck('large', run_large, strategy=strat_large, quick=500, thorough=20000,
              rule="every family through the library at realistic sizes (the instance generator of C10: php up to 40x30, graph families on gnm/regular/grid graphs up to 60 vertices, op 16, stone 14x6, vdw 60, ptn 300, random formulas, ...) with formula_class=CNF and =OPB; oracle: same class/count/names and the two renderings agree on ~110 sampled assignments (models of the CNF side found by a node-bounded DPLL, 1-3 flips around them, random ones of four densities, all-false, all-true), evaluated bit-parallel; non-trivial: >22 variables, a non-clausal OPB constraint, and the sample contains both satisfying and falsifying rows",
              required_labels=['sampled', 'sample-separates', 'models-found', 'native-cardinality']),
